@@ -563,3 +563,6 @@ def shrink(line):
             yield variant(checks=sc["checks"][:i] + [c2] + sc["checks"][i + 1:])
     if sc["mode"] == "D":
         yield variant(mode="P")
+
+
+KNOWN_MUST_MATCH_MODEL = True   # inside a known finding's region the observation must still equal the model's (which reproduces the listed defect); see lib/vf/run.py
